@@ -53,6 +53,17 @@ def run(rep, tier, rng):
                     cases.append(C.whist_case(hs, 0, hx, fault=(dest, k, 0)))
                     meta.append({"h": ["a", "F", "x", "a", "f"], "pos": 2, "t1": t1, "t2": t2,
                                  "without": C.whist_case(hs, 0, h, fault=(dest, k, 0))})
+    # the rejected call right after a FIRST write that failed part-way (the writer already holds the type of that shape)
+    for (t1, t2, a, x), (n_a, n_ax) in zip(probes, nops):
+        for j in sorted(set([0, 1, 13, 14, max(0, n_a - 1)] if tier != "thorough" else range(0, n_a))):
+            if j >= n_a:
+                continue
+            hx = [("w", a), ("w", x), ("w", a), ("f",)]
+            h = [("w", a), ("w", a), ("f",)]
+            cases.append(C.whist_case(True, 0, hx, fault=(1, j, 0)))
+            meta.append({"h": ["A", "x", "a", "f"], "pos": 1, "t1": t1, "t2": t2,
+                         "without": C.whist_case(True, 0, h, fault=(1, j, 0))})
+    rep.cov["after_failed_first_write_cases"] = sum(1 for m in meta if "A" in m["h"])
     rep.cov["after_failed_finalize_cases"] = sum(1 for m in meta if "F" in m["h"])
     rep.cov["rule"] = ("all 13x12 ordered pairs (file type, offered type); histories 'a' + {a, finalize}^<=%d with the rejected "
                        "write inserted at every later position (sampled in the quick tier), with/without shx, ending drop or "
@@ -110,7 +121,7 @@ def run(rep, tier, rng):
     pimpl = stages.correspondence(rep, "pair", dev, pcases, "pair(rejected shape through the complete writer)", vm_sample=30)
     for c, (h, t1, t2), r in zip(pcases, pmeta, pimpl):
         msg = None
-        if r in ([-4], [-2], [2]):
+        if r in ([-4], [-2], [2], [-5]):
             msg = "panic in the complete writer/reader"
         else:
             res = C08.parse_pair(r, len(h), pops)
